@@ -1,11 +1,16 @@
 #!/bin/bash
 # Run once after a fresh restore (offline). Builds the native replay binary and warms the Kani
-# build of the harness crate so that the first check does not pay the dependency compile.
+# build of the harness crate in every worker slot (each worker has its own cargo target dir) so
+# that the first check does not pay the dependency compile.
 set -u
 cd "$(dirname "$0")"
 export CARGO_NET_OFFLINE=true
 mkdir -p .build/logs evidence replays
 [ -f harness/Cargo.lock ] || cp /repo/Cargo.lock harness/Cargo.lock
 ( cd harness && CARGO_TARGET_DIR=../.build/native cargo build --offline --bin replay ) > .build/logs/setup-native.log 2>&1 || { echo "native build failed"; tail -20 .build/logs/setup-native.log; exit 1; }
-( cd harness && cargo kani --target-dir ../.build/kani --only-codegen --exact --harness c14::c14_vs_cap1_k3 ) > .build/logs/setup-kani.log 2>&1 || { echo "kani warm-up build failed"; tail -20 .build/logs/setup-kani.log; exit 1; }
+JOBS=${VERIF_JOBS:-6}
+( cd harness && cargo kani --target-dir ../.build/kani-w0 --only-codegen --exact --harness c14::c14_vs_cap1_k3 ) > .build/logs/setup-kani-0.log 2>&1 || { echo "kani warm-up build failed"; tail -20 .build/logs/setup-kani-0.log; exit 1; }
+for i in $(seq 1 $((JOBS-1))); do
+  [ -d .build/kani-w$i ] || cp -r .build/kani-w0 .build/kani-w$i
+done
 echo "setup ok"
